@@ -85,10 +85,11 @@ class SvdStub:
     """np.linalg.svd(J, full_matrices=False) contract: fresh sigma (descending, >= 0), Vt with orthonormal rows,
     and J^T J = V sigma^2 V^T."""
 
-    def __init__(self, ctx, with_contract=True):
+    def __init__(self, ctx, with_contract=True, well_conditioned=False):
         self.ctx = ctx
         self.calls = []
         self.with_contract = with_contract
+        self.well_conditioned = well_conditioned  # assume every sigma >= 1 (no rank-deficiency forks)
 
     def __call__(self, a, full_matrices=True, **kw):
         a = np.asarray(a)
@@ -98,7 +99,7 @@ class SvdStub:
         vt = SymArray((k, n))
         for i in range(k):
             sv[i] = SymReal(z3.Real(f"sv_{i}"))
-            self.ctx.assume(sv[i].e >= 0)
+            self.ctx.assume(sv[i].e >= (1 if self.well_conditioned else 0))
             if i:
                 self.ctx.assume(sv[i - 1].e >= sv[i].e)
             for j in range(n):
